@@ -353,7 +353,13 @@ fn dec_value(bytes: &[u8], idx: &mut usize) -> Result<Value> {
             21 => Ok(Value::Bool(true)),
             22 => Ok(Value::Null),
             25 => {
+                need(bytes, *idx, 2)?;
+                let half_bits = u16::from_be_bytes([bytes[*idx], bytes[*idx + 1]]);
                 let f = read_f(bytes, idx, 2)?;
+                // The only canonical NaN is the quiet half-precision NaN 0x7e00.
+                if f.is_nan() && half_bits != 0x7e00 {
+                    return Err(CanonError::NonCanonicalFloat);
+                }
                 if is_exact_int(f) {
                     return Err(CanonError::FloatShouldBeInt);
                 }
